@@ -93,6 +93,20 @@ def r_uint_tables(ctx):
     exp = {v: ('u%d' % n, v) for v, n in WIDTHS.items()}
     exp.update({'U1': ('u8', 'u1'), 'U2': ('u8', 'u2'), 'U4': ('u8', 'u4'), 'U256': ('U256', 'U256')})
     ctx.ob(rid, 'parse_decimal', pd == exp, 'parse_decimal: Uk ↦ s.parse::<uk>() wrapped in Uk (u1/u2/u4 through u8 and the range-checked constructors)', fn.where(), str(pd))
+    # byte slices -> integers: big-endian for every width (sibling agreement across the arms)
+    fn = ctx.anchor(fx, '<value::UIntValue as std::convert::TryFrom<&[u8]>>::try_from')
+    tf = {}
+    for kind, p, ret in explore(ctx, fn):
+        if kind == 'RET' and p.conds and S(p.conds[0][0]) == 'len(value)':
+            v = ret
+            inst = ''
+            for x in walk(ret):
+                if is_call(x) and x[1].split('::')[-1] in ('from_be_bytes', 'from_le_bytes', 'from_ne_bytes', 'from_byte_array'):
+                    inst = x[1].split('::')[-1] + ':' + (re.search(r'(u\d+|U256)', x[3] or x[1]).group(1) if re.search(r'(u\d+|U256)', x[3] or x[1]) else '?')
+            tf[p.conds[0][1]] = (S(ret).split('{')[1] if ret_kind(ret) == 'ok' else S(ret), inst)
+    exp = {'1': ('U8', ''), '2': ('U16', 'from_be_bytes:u16'), '4': ('U32', 'from_be_bytes:u32'), '8': ('U64', 'from_be_bytes:u64'), '16': ('U128', 'from_be_bytes:u128'), '32': ('U256', 'from_byte_array:U256'),
+           '!1|2|4|8|16|32': ('Err{"Too many bytes"}', '')}
+    ctx.ob(rid, 'try_from-bytes', tf == exp, 'TryFrom<&[u8]>: k bytes ↦ U(8k) read big-endian (from_be_bytes) for every width', fn.where(), str(tf))
     # as_integer shifts
     fn = [f for f in fx.find(r'^value::destruct::as_integer$')]
     ctx.floor(rid, 'destruct::as_integer', len(fn), 1)
@@ -243,7 +257,30 @@ def r_reconstruct(ctx):
         ctx.ob(rid, 'const-fold:' + k, got.get(k) == exp.get(k), 'from_const_expr %s ↦ %s' % (k, exp.get(k)), fc.where(), 'found %s' % got.get(k) if got.get(k) != exp.get(k) else None)
 
 
+def r_value_to_structural(ctx, rid='R07.9'):
+    ctx.rule(rid, 'StructuralValue::from(&Value): each typed value variant becomes the structural constructor of the same name with the type components of that node (into() = StructuralType::from)')
+    fx = ctx.facts()
+    fn = ctx.anchor(fx, '<value::StructuralValue as std::convert::From<&value::Value>>::from')
+    got = {}
+    for kind, p, ret in explore(ctx, fn, max_visits=1):
+        for e in event_calls(p, 'push'):
+            if 'Vec' not in e[1]:
+                continue
+            before = [(S(w), l) for w, l in p.conds[:e[5]]]
+            form = [l for w, l in before if w.endswith('.node.inner') or w.endswith('.node.inner@Either.0') or w.endswith('.node.inner@Option.0')]
+            v = S(e[2][1]).replace('next(into_iter(post_order_iter(value)))@Some.0.node', 'NODE')
+            v = v.replace('split_off(new(), SubWithOverflow(len(new()), n_children(NODE)).0)', 'CHILDREN').replace('unwrap(pop(new()))', 'CHILD')
+            got['.'.join(form[-2:]) if form and form[-1] in ('Left', 'Right', 'None', 'Some') else (form[-1] if form else '?')] = v
+    T = 'ty(NODE)), "value is type-checked")'
+    exp = {'Either.Left': 'left(CHILD, expect(as_either(%s.1)' % T, 'Either.Right': 'right(expect(as_either(%s.0, CHILD)' % T, 'Option.None': 'none(expect(as_option(%s)' % T, 'Option.Some': 'some(CHILD)',
+           'Tuple': 'tuple(CHILDREN)', 'Array': 'array(CHILDREN, expect(as_array(%s.0)' % T, 'List': 'list(CHILDREN, expect(as_list(%s.0, NODE.inner@List.1)' % T,
+           'UInt': 'from(NODE.inner@UInt.0)', 'Boolean': 'from(NODE.inner@Boolean.0)'}
+    for k in sorted(set(exp) | set(got)):
+        ctx.ob(rid, 'to-structural:' + k, got.get(k) == exp.get(k), 'Value %s ↦ %s' % (k, exp.get(k)), fn.where(), 'found %s' % got.get(k) if got.get(k) != exp.get(k) else None)
+
+
 def check(ctx):
+    r_value_to_structural(ctx)
     r_reconstruct(ctx)
     layout.r_btree(ctx, 'R07.1')
     layout.r_partition(ctx, 'R07.2')
